@@ -375,6 +375,19 @@ func passwords(tp *tape.Tape) (server, client string) {
 		return
 	}
 	if tp.Bool(1, 12) {
+		// long passwords of equal length that differ in a single late byte (a
+		// comparison over a fixed-size prefix, block or digest input must see it)
+		pPwLateByte.Hit()
+		n := 65 + tp.Choose(200)
+		b := tp.Bytes(n)
+		server = string(b)
+		at := []int{n - 1, 64, 65, n / 2, 127 % n, 128 % n, 63}[tp.Choose(7)]
+		c := append([]byte(nil), b...)
+		c[at] ^= byte(1 << uint(tp.Choose(8)))
+		client = string(c)
+		return
+	}
+	if tp.Bool(1, 12) {
 		// same length, the same bit flipped in 256/mask bytes: the byte-wise
 		// differences cancel under XOR and add up to exactly 256
 		pPwBalanced.Hit()
@@ -848,3 +861,5 @@ var pWrongTypeAccepted = simrt.NewProbe("byzantine.response.type!=0.accepted.by.
 var pPwLongPrefix = simrt.NewProbe("login.password.prefix.pairs.with.length.difference.255..3840")
 
 var pPwBalanced = simrt.NewProbe("login.password.pairs.whose.byte.differences.cancel(xor)/sum.to.256(add)")
+
+var pPwLateByte = simrt.NewProbe("login.long.passwords.differing.in.one.late.byte")
